@@ -58,6 +58,7 @@ type Enc struct {
 	curState   *State
 	curFrame   *frame
 	noObl      int // >0: suppress obligations (spec-function inlining)
+	dynResults map[string]Val // result of the (last) call through a function-typed parameter
 	entryLets  map[string]Val
 	ghostObjs  int
 	inQuant    int
@@ -177,6 +178,7 @@ type frame struct {
 	idom    map[*ssa.BasicBlock]*ssa.BasicBlock
 	headVal map[*ssa.BasicBlock]map[string]Val // loop head -> name -> value at head (for old() in step clauses)
 	headSt  map[*ssa.BasicBlock]*State
+	locals  []localAlloc
 }
 
 type retSite struct {
